@@ -128,11 +128,15 @@ proof_geo! {
         let bb = any_bb();
         bound_per_kind(&bb, 0, 1);
         bound_per_kind(&bb, 1, 1);
-        let ops: [u8; 3] = [kani::any(), kani::any(), kani::any()];
-        kani::assume(ops[0] <= 6 && ops[1] <= 6 && ops[2] <= 5);
+        // program: [clone] q1 [clone] q2 q2 — every query pair, with a clone before and/or between them
+        let clone_first: bool = kani::any();
+        let clone_between: bool = kani::any();
+        let q1: u8 = kani::any();
+        let q2: u8 = kani::any();
+        kani::assume(q1 <= 5 && q2 <= 5);
         print_bb("c10 order_and_clone_independence", &bb, 0);
-        println!("CASE {{\"harness\":\"c10 order\",\"ops\":[{},{},{}]}}", ops[0], ops[1], ops[2]);
-        // reference answers: each from its own fresh board, asked exactly once
+        println!("CASE {{\"harness\":\"c10 order\",\"clone_first\":{},\"q1\":{},\"clone_between\":{},\"q2\":{}}}", clone_first, q1, clone_between, q2);
+        // reference answers
         let want: [u64; 6] = [
             attack_set_ref(&bb, 0),
             attack_set_ref(&bb, 1),
@@ -142,23 +146,18 @@ proof_geo! {
             attacked_ref(&bb, 0, bb[1][K].trailing_zeros() as u8) as u64,
         ];
         let mut cur = to_board(&bb);
-        macro_rules! stepq {
-            ($i:expr) => {
-                if ops[$i] == 6 {
-                    cur = cur.clone();
-                } else {
-                    assert!(query(&cur, ops[$i]) == want[ops[$i] as usize], "a query answers the same whatever was asked or cloned before");
-                }
-            };
+        if clone_first {
+            cur = cur.clone();
         }
-        stepq!(0);
-        stepq!(1);
-        stepq!(2);
-        // asking again gives the same answer (the cache is stable)
-        assert!(query(&cur, ops[2]) == want[ops[2] as usize], "repeating a query gives the same answer");
-        kani::cover!(ops[0] == 6 && ops[1] == 0 && ops[2] == 0, "clone, query, same query");
-        kani::cover!(ops[0] == 1 && ops[1] == 6 && ops[2] == 4, "query, clone, dependent check flag");
-        kani::cover!(ops[0] == 2 && ops[1] == 0, "pawn set first, then the full set of the same colour");
+        assert!(query(&cur, q1) == want[q1 as usize], "first query is right (fresh or cloned board)");
+        if clone_between {
+            cur = cur.clone();
+        }
+        assert!(query(&cur, q2) == want[q2 as usize], "a query answers the same whatever was asked or cloned before");
+        assert!(query(&cur, q2) == want[q2 as usize], "repeating a query gives the same answer");
+        kani::cover!(clone_between && q1 == 0 && q2 == 0, "query, clone, same query");
+        kani::cover!(clone_between && q1 == 1 && q2 == 4, "query, clone, dependent check flag");
+        kani::cover!(!clone_between && q1 == 2 && q2 == 0, "pawn set first, then the full set of the same colour");
     }
 }
 
